@@ -50,9 +50,6 @@ func RunRingWrap(c WCase) pbt.Outcome {
 		}
 		joined = !joined
 	}
-	if !joined && total > tail {
-		// mirror state: container/ring saw only the tail; bring it to the same state
-	}
 	var vals []int
 	r.Do(func(v int) {
 		if len(vals) < 5 {
